@@ -55,7 +55,7 @@ pub struct Profile {
 pub fn profile(name: &str) -> Profile {
     let base = Profile {
         name: "core",
-        kinds: [3, 3, 3, 3, 1, 1, 1, 0, 0],
+        kinds: [3, 3, 3, 3, 1, 1, 1, 0, 1],
         w_insert: 5,
         w_token: 6,
         w_cause: 8,
@@ -89,6 +89,7 @@ pub fn profile(name: &str) -> Profile {
         "C08" => Profile { name: "C08", kinds: [3, 3, 3, 3, 1, 3, 1, 0, 0], adapters: 3, script_len: (1, 5), script_ops: (1, 6), w_idle: 4, ..base },
         "C09" => Profile { name: "C09", kinds: [2, 1, 2, 8, 0, 0, 0, 0, 0], err_returns: true, script_len: (1, 5), ..base },
         "C10" => Profile { name: "C10", kinds: [1, 1, 1, 0, 0, 8, 5, 0, 0], w_cause: 14, ..base },
+        "C18" => Profile { name: "C18", kinds: [1, 0, 1, 1, 0, 0, 0, 0, 10], w_token: 9, w_cause: 10, ..base },
         "C17" => Profile { name: "C17", kinds: [1, 0, 1, 0, 0, 8, 0, 0, 0], adapters: 12, w_cause: 10, max_sources: 4, natural_faults: true, ..base },
         "C12" => Profile { name: "C12", kinds: [2, 1, 8, 1, 0, 0, 0, 0, 0], w_dispatch: 10, w_advance: 5, w_cause: 3, ..base },
         "C13" => Profile { name: "C13", w_idle: 10, err_returns: true, ..base },
@@ -208,6 +209,19 @@ impl G {
                         Ret::TDrop
                     }
                 }
+            },
+            KindTag::Transient => match self.rng.below(10) {
+                0..=5 => Ret::Continue,
+                6 | 7 => Ret::Reregister,
+                8 => {
+                    // rare: a child Disable runs into known finding F10 and ends the run
+                    if self.rng.chance(1, 3) {
+                        Ret::Disable
+                    } else {
+                        Ret::Continue
+                    }
+                }
+                _ => Ret::Remove,
             },
             KindTag::Generic => match self.rng.below(10) {
                 0..=4 => Ret::Continue,
@@ -539,7 +553,7 @@ pub fn generate(profile_name: &str, seed: u64) -> Program {
         let m = g.rng.range(1, 4);
         for _ in 0..m {
             if let Some(op) = g.cause_op() {
-                if !matches!(op, Op::Advance(_) | Op::TimerSet(..) | Op::GenericSet(..)) {
+                if crate::ops::env_allowed(&op) {
                     env.push(EnvEvent { at: g.rng.below(120) * MS + g.rng.below(MS), op });
                 }
             }
